@@ -6,3 +6,5 @@ import RactorModel.Props.C09
 import RactorModel.Props.C08
 import RactorModel.Props.C16
 import RactorModel.Props.C20
+import RactorModel.Props.C12
+import RactorModel.Props.C05
